@@ -4,6 +4,7 @@
 
 #include <string.h>
 #include <strings.h> /* for strcasecmp() */
+#include <float.h> /* for FLT_MAX */
 
 #include "types.h"
 
@@ -67,9 +68,14 @@ static int setPosition(float *val, MPT_INTERFACE(convertable) *src)
 	if ((len = src->_vptr->convert(src, 'd', &tmp)) >= 0) {
 		if (!len) {
 			*val = 0.0f;
-		} else {
-			*val = tmp;
+			return 0;
 		}
+		/* finite value must not become infinite */
+		if (tmp >= -DBL_MAX && tmp <= DBL_MAX
+		 && (tmp > FLT_MAX || tmp < -FLT_MAX)) {
+			return MPT_ERROR(BadValue);
+		}
+		*val = tmp;
 		return 0;
 	}
 	return MPT_ERROR(BadType);
